@@ -12,7 +12,10 @@ CONSTANTS
   CountTruncated = TRUE
   HonourDisconnect = TRUE
   TellFromZero = TRUE
-  Depth = 4
+  RejectNegativeCL = TRUE
+  AccountBeforeYield = TRUE
+  ExhaustToTheEnd = TRUE
+  Depth = 5
   MaxEvents = 3
   MaxEvLen = 3
   MaxData = 0
@@ -22,4 +25,5 @@ INVARIANT SizedReadBounded
 INVARIANT NeverAskBeyondCL
 INVARIANT IndicatorsAgree
 INVARIANT DisconnectEndsStream
+INVARIANT ExhaustEndsStream
 INVARIANT Emit
